@@ -155,7 +155,7 @@ def src_line(n):
 class FnInfo:
     def __init__(self, cname, node, qname):
         self.cname = cname; self.node = node; self.qname = qname
-        self.callees = set(); self.loops = []; self.rules = {}
+        self.callees = set(); self.loops = []; self.rules = {}; self.locals = set()
         self.text = ''; self.proto = ''
         self.line = None; self.file = None
 
@@ -258,6 +258,7 @@ class Lowerer:
            'operator/': 'div', 'operator%': 'mod'}
     def opname(self, name):
         if name in self.OPS: return 'op_' + self.OPS[name]
+        if name.startswith('operator ') and 'RestrictedBool' in name: return 'op_tobool'      # safe-bool idiom of Qt smart pointers
         if name.startswith('operator '): return 'op_conv_' + mangle_core(name[9:])
         if name.startswith('~'): return 'dtor'
         return name
@@ -358,6 +359,18 @@ class Lowerer:
             if self.is_enum(t) and not t.is_builtin:
                 return '((%s)(%s))' % (t.name, self.e(sub))
             return '((%s)(%s))' % (t.name, self.e(sub))
+        if ck == 'MemberPointerToBoolean':
+            # safe-bool idiom: `if (ptr)` on a Qt smart pointer = ptr.operator RestrictedBool() != 0
+            x = sub
+            while x.get('kind') in ('ImplicitCastExpr', 'ParenExpr', 'ExprWithCleanups'): x = x['inner'][0]
+            if x.get('kind') == 'CXXMemberCallExpr':
+                me = x['inner'][0]
+                while me.get('kind') in ('ImplicitCastExpr', 'ParenExpr'): me = me['inner'][0]
+                if me.get('kind') == 'MemberExpr':
+                    base = me['inner'][0]; cname = '%s_op_tobool' % ct(base).name
+                    self.note_extern(cname, n); self.rule('smart pointer in boolean context -> op_tobool')
+                    return '%s(%s)' % (cname, self.e(base))
+            return '((%s) != 0)' % self.e(sub)
         if ck in ('IntegralToBoolean', 'PointerToBoolean'):
             return '((%s) != 0)' % self.e(sub)
         if ck == 'NullToPointer':
@@ -579,6 +592,9 @@ class Lowerer:
         cls = bt.name
         if name.startswith('operator'):
             name = self.opname(name)
+        if name in ('dynamicCast', 'staticCast', 'objectCast', 'constCast', 'toStrongRef', 'value', 'toObject') and name != 'value':
+            rt_ = ct(n)
+            if name.endswith('Cast'): name = name + '_' + rt_.name        # the target type is part of the model function's name
         suffix = self.argsuffix(args)
         cname = '%s_%s%s' % (cls, name, ('__' + suffix) if suffix else '')
         if name in ITER_METHODS:
@@ -630,6 +646,10 @@ class Lowerer:
             f = self.ix.fn_by_id.get(rd['id'])
             if f is not None and rd.get('kind') in ('FunctionDecl', 'CXXMethodDecl'):
                 cname = self.fn_cname(f)
+                if cname == self.cur.cname:
+                    # self-recursion: the nested call goes to the stub <f>__rec, whose contract (given in the sidecar) is the
+                    # function's own contract: induction on the recursion depth
+                    cname += '__rec'; self.rule('recursive call -> <f>__rec (own contract, induction on depth)')
                 params = [p for p in f.get('inner', []) if p.get('kind') == 'ParmVarDecl']
                 cargs = [self.arg(a, ct(params[i]) if i < len(params) else None, True) for i, a in enumerate(args)]
                 self.cur.callees.add(cname); self.rule('repo-call')
@@ -1066,6 +1086,7 @@ class Lowerer:
     def vardecl(self, v, ind):
         t = ct(v); name = self.var_name(v)
         self.scope_ids.add(v['id'])
+        if self.cur is not None: self.cur.locals.add(name)
         init = [c for c in v.get('inner', []) if isinstance(c, dict) and c.get('kind') not in ('FullComment',)]
         mark = len(self.temps)
         static = v.get('storageClass') == 'static'
@@ -1102,6 +1123,8 @@ class Lowerer:
             text = ind + '%s = %s;\n' % (self.ctype_decl(t, name), self.addr(i0))
             return self.with_temps_decl(mark, ind, text)
         if self.is_class_type(t) and self.is_repo_class(t) and t.name not in self.repo_value:
+            rq_ = self.rec_for(t)
+            if rq_: self.need_struct(rq_)
             out = ind + '%s;\n' % self.value_decl(t, name)
             if init:
                 i0 = init[0]
@@ -1329,7 +1352,9 @@ class Lowerer:
         self.lambda_names = getattr(self, 'lambda_names', set())
         kind = f['kind']
         scope = self._qname_of(f).rsplit('::', 1)[0] if '::' in self._qname_of(f) else ''
-        is_member = kind in ('CXXMethodDecl', 'CXXConstructorDecl', 'CXXDestructorDecl') and f.get('storageClass') != 'static'
+        prev = self.ix.decl_by_id.get(f.get('previousDecl')) or {}
+        is_static = f.get('storageClass') == 'static' or prev.get('storageClass') == 'static'      # 'static' is written on the in-class declaration only
+        is_member = kind in ('CXXMethodDecl', 'CXXConstructorDecl', 'CXXDestructorDecl') and not is_static
         params = []
         if is_member:
             self.self_type = mangle_core(scope)
